@@ -53,7 +53,7 @@ RULE = ("seeded coordinate sets: n=1..9 integer (x,y) coordinates drawn clustere
         "limits, scale); non-trivial = at least two triangles (single triangles are run but counted trivial)")
 BOUNDS = {"quick": "480 coordinate sets x depth 0..3 x 2 representations + 96 for_limits_and_scale sets (depth 0..2); per level "
                    "3 reference points x 4 shape kinds",
-          "thorough": "12000 coordinate sets x depth 0..3 x 2 representations + 1920 for_limits_and_scale sets (depth 0..2); per "
+          "thorough": "8000 coordinate sets x depth 0..3 x 2 representations + 1280 for_limits_and_scale sets (depth 0..2); per "
                       "level 6 (coordinate sets) / 3 reference points x 4 shape kinds"}
 EXHAUSTIVE = {"quick": False, "thorough": False}
 ASSUMPTIONS = [
@@ -85,8 +85,8 @@ MIN_MONITORS = {"*": dict({c: 1 for c in _CONTRACTS},
 
 
 def plan(tier, seed):
-    n = 480 if tier == "quick" else 12000
-    m = 96 if tier == "quick" else 1920
+    n = 480 if tier == "quick" else 8000
+    m = 96 if tier == "quick" else 1280
     units = []
     step = 10
     for s in range(0, n, step):
